@@ -67,9 +67,26 @@ func (sh *Shared) bindDecls(cs *ContractSet) error {
 			if st.Field(i).Name() == g.Field {
 				gi.fieldIdx = i
 			}
-			if st.Field(i).Name() == g.Lock {
+			if st.Field(i).Name() == g.Lock && (g.LockType == "" || g.LockType == g.Type) {
 				gi.lockIdx = i
 			}
+		}
+		if g.LockType != "" && g.LockType != g.Type {
+			lt, err := w.resolveType(pkg, g.LockType)
+			if err != nil {
+				return fmt.Errorf("guarded_by lock type %s: %v", g.LockType, err)
+			}
+			lst, ok := lt.Underlying().(*types.Struct)
+			if !ok {
+				return fmt.Errorf("guarded_by lock type %s: not a struct", g.LockType)
+			}
+			for i := 0; i < lst.NumFields(); i++ {
+				if lst.Field(i).Name() == g.Lock {
+					gi.lockIdx = i
+				}
+			}
+			gi.foreign = true
+			gi.lockStruct = lt
 		}
 		if gi.fieldIdx < 0 || gi.lockIdx < 0 {
 			return fmt.Errorf("guarded_by %s.%s by %s: field not found", g.Type, g.Field, g.Lock)
